@@ -105,6 +105,6 @@ PLAN = {
 CLAIM = {
     "engine": "rapidcheck-tape + exhaustive-tape",
     "technique": "property-based translation validation: generated ground-truth models, generated C compiled and run, generated Python executed, every value compared with an independent reference evaluator; bounded-exhaustive operator-pair sweep",
-    "text": "Every generated program (C and Python, for each generated model) is executed and each array entry - initial states, constants, computed constants, rates and variables at two evaluation points - is compared with a reference evaluator written for the harness; NLA objective functions are evaluated at the constructed solution; C and Python are compared with each other. The thorough tier additionally enumerates every (parent operator, position, child operator) pair, also with a unary minus / not / divide / unary plus in between, which is the space the generator's parenthesisation rules quantify over. Validates the translation for the programs generated, not for all programs.",
+    "text": "Every generated program (C and Python, for each generated model) is executed and each array entry - initial states, constants, computed constants, rates and variables at two evaluation points - is compared with a reference evaluator written for the harness; NLA objective functions are evaluated at the constructed solution; C and Python are compared with each other. Both tiers enumerate (sharded over 16 processes) every (parent operator, position, child operator) pair, also with a unary minus / not / divide / unary plus in between, which is the space the generator's parenthesisation rules quantify over. Validates the translation for the programs generated, not for all programs.",
     "note": "Trusts the harness's reference evaluator (kit/expr.cpp), the system C compiler and Python interpreter; expressions are kept inside the domain where C, Python and the reference must agree (margin 2e-3, tolerance 1e-7); NLA systems are checked at the constructed solution, not solved.",
 }
